@@ -131,6 +131,46 @@ def _check_that_field_location_can_be_non_negative(field, source_file_name, erro
             )
 
 
+def _check_that_field_end_fits_in_64_bits(field, source_file_name, errors):
+    """Checks that start + size of a physical field can be computed in 64 bits.
+
+    The sum only appears in generated expressions ($size_in_bytes, $next), whose
+    errors carry no source position; without this check `0 [+8]  UInt  a` /
+    `a [+8]  UInt  b` is rejected with nothing but "[compiler bug]" locations.
+    """
+    if not field.has_field("location"):
+        return
+    bounds = []
+    for expression in (field.location.start, field.location.size):
+        if expression.type.which_type != "integer":
+            return
+        minimum = expression.type.integer.minimum_value
+        maximum = expression.type.integer.maximum_value
+        if minimum in ("infinity", "-infinity", "", None):
+            return
+        if maximum in ("infinity", "-infinity", "", None):
+            return
+        bounds.append((int(minimum), int(maximum)))
+    for minimum, maximum in bounds:
+        if not _bounds_can_fit_any_64_bit_integer_type(minimum, maximum):
+            # Reported, with its own location, by the check of the expression.
+            return
+    end_minimum = bounds[0][0] + bounds[1][0]
+    end_maximum = bounds[0][1] + bounds[1][1]
+    if not _bounds_can_fit_any_64_bit_integer_type(end_minimum, end_maximum):
+        errors.append(
+            [
+                error.error(
+                    source_file_name,
+                    field.location.source_location,
+                    "Potential range of the end of field (start + size) is {} to {}, "
+                    "which cannot fit in a 64-bit signed or unsigned "
+                    "integer.".format(end_minimum, end_maximum),
+                )
+            ]
+        )
+
+
 def _check_that_array_sizes_are_usable(type_ir, source_file_name, errors, ir):
     """Checks that array lengths are not negative and elements not zero-sized."""
     if (
@@ -1000,6 +1040,12 @@ def check_constraints(ir):
         ir,
         [ir_data.Field],
         _check_that_field_location_can_be_non_negative,
+        parameters={"errors": errors},
+    )
+    traverse_ir.fast_traverse_ir_top_down(
+        ir,
+        [ir_data.Field],
+        _check_that_field_end_fits_in_64_bits,
         parameters={"errors": errors},
     )
     traverse_ir.fast_traverse_ir_top_down(
